@@ -344,3 +344,46 @@ func VH_C04_unmarshal_then_write() {
 		}
 	}
 }
+
+// MarshalPacked / UnmarshalPacked: the packed frame of a message of one or two segments unpacks to
+// the same segments (bytes either all non-zero or all zero per segment, so that the packer's
+// structure is fixed and the byte values stay symbolic)
+func VH_C14_marshal_packed_roundtrip() {
+	k := 1 + vConcrete(int(vNondetU8()%2), 2)
+	bufs := make([][]byte, k)
+	for i := 0; i < k; i++ {
+		w := vConcrete(int(vNondetU8()%3), 3)
+		bufs[i] = vNondetBytes(8 * w)
+		zero := vNondetBool()
+		for j := range bufs[i] {
+			if zero {
+				vAssume(bufs[i][j] == 0)
+				bufs[i][j] = 0
+			} else {
+				vAssume(bufs[i][j] != 0)
+			}
+		}
+	}
+	m := &Message{Arena: MultiSegment(bufs)}
+	p, err := m.MarshalPacked()
+	vReach("packed")
+	vAssert(err == nil, "C04.packedframe.marshal-ok")
+	if err != nil {
+		return
+	}
+	g, err := UnmarshalPacked(p)
+	vAssert(err == nil, "C04.packedframe.unmarshal-ok")
+	if err != nil {
+		return
+	}
+	vAssert(int(g.NumSegments()) == k, "C04.packedframe.segment-count")
+	for i := 0; i < k; i++ {
+		s, err := g.Segment(SegmentID(i))
+		vAssert(err == nil && len(s.data) == len(bufs[i]), "C04.packedframe.segment-length")
+		if err == nil && len(bufs[i]) > 0 && len(s.data) == len(bufs[i]) {
+			j := vNondetInt()
+			vAssume(j >= 0 && j < len(bufs[i]))
+			vAssert(s.data[j] == bufs[i][j], "C04.packedframe.segment-bytes")
+		}
+	}
+}
